@@ -54,8 +54,8 @@ Derived(xo, yo, so, ko, no, addign) ==
               ELSE <<>>
     IN [rules |-> r1 @@ r2 @@ r3 @@ r4 @@ r5, ign |-> IF addign THEN <<Str(<<dash>>)>> ELSE <<>>]
 
-VARIABLES ig, d2, d3, done
-vars == <<ig, d2, d3, done>>
+VARIABLES ig, d2, d3, cap, done          \* cap: the base spells its start rule "Start"
+vars == <<ig, d2, d3, cap, done>>
 
 Opts == {<<xo, yo, so, ko, no>> : xo \in XOpts, yo \in YOpts, so \in SOpts, ko \in KOpts, no \in NOpts}
 NonTrivial(o) == o # <<"inherit", "inherit", "inherit", "inherit", "absent">>
@@ -81,13 +81,20 @@ Init == /\ ig \in {"none", "named", "anon", "both", "bothanon"}
         /\ d3 \in Opts3
         /\ (Tier = "quick" => ig # "named")
         /\ (Tier = "quick" => IF ig = "none" THEN ~NonTrivial(d3) \/ d2 \in Special ELSE d2 \in Special)
+        /\ cap \in BOOLEAN
+        /\ (cap => (d2[3] = "inherit" /\ d3[3] = "inherit" /\ (Tier = "quick" => d2 \in Special)))
         /\ done = FALSE
+
+SName == IF cap THEN "Start" ELSE "start"
+Cap(m) == IF cap THEN [m EXCEPT !.rules = [n \in ((DOMAIN m.rules) \ {"start"}) \cup {"Start"} |->
+                                              IF n = "Start" THEN m.rules["start"] ELSE m.rules[n]]]
+          ELSE m
 
 Chain ==
     LET bb == Base(ig)
         m2 == Derived(d2[1], d2[2], d2[3], d2[4], d2[5], ig \in {"both", "bothanon"})
         m3 == Derived(d3[1], d3[2], d3[3], d3[4], d3[5], FALSE)
-    IN IF NonTrivial(d3) THEN <<bb, m2, m3>> ELSE <<bb, m2>>
+    IN IF NonTrivial(d3) THEN <<Cap(bb), m2, m3>> ELSE <<Cap(bb), m2>>
 
 (* the base re-created under the same name with different rules, and extended again *)
 Chain2 ==
@@ -97,7 +104,7 @@ Chain2 ==
                           W |-> Rule(Plus(C1))],
                ign |-> Base(ig).ign]
         e2 == [Chain[2] EXCEPT !.rules = ("M" :> Rule(Seq2(Ref("W"), Opt(Ref("X"))))) @@ @]
-    IN <<b2, e2>>
+    IN <<Cap(b2), e2>>
 
 Alpha == IF ig = "none" THEN <<a, b, c3>> ELSE IF ig \in {"both", "bothanon"} THEN <<a, b, c3, sp, dash>> ELSE <<a, b, c3, sp>>
 Texts == TextSeqUpTo(Alpha, IF Tier = "quick" THEN 3 ELSE 4)
@@ -106,10 +113,10 @@ Texts == TextSeqUpTo(Alpha, IF Tier = "quick" THEN 3 ELSE 4)
                <<35, 36, 36, a, c3>> >>
          \o (IF ig = "none" THEN <<>> ELSE << <<sp, a, sp, b, sp, b>>, <<a, sp, c3, sp, b>>, <<sp, sp, a, sp, a>> >>)
 
-EntriesOf(chain, top) == SelectSeq(<<"start", "X", "Y", "K", "Z", "N", "M", "U", "V">>, LAMBDA r : HasDef(chain, 1, top, r))
+EntriesOf(chain, top) == SelectSeq(<<SName, "X", "Y", "K", "Z", "N", "M", "U", "V">>, LAMBDA r : HasDef(chain, 1, top, r))
 
 RunsFor(chain, top) ==
-    LET G == Flat(chain, top)
+    LET G == FlatS(chain, top, SName)
         es == EntriesOf(chain, top)
     IN [k \in 1..(Len(es) * Len(Texts)) |->
            LET en == es[((k - 1) \div Len(Texts)) + 1]
@@ -119,7 +126,7 @@ RunsFor(chain, top) ==
 
 Step == /\ ~done
         /\ done' = TRUE
-        /\ UNCHANGED <<ig, d2, d3>>
+        /\ UNCHANGED <<ig, d2, d3, cap>>
         /\ PrintT(ToJson([chain |-> Chain, chain2 |-> Chain2, ig |-> ig,
                           runs |-> [top \in 1..Len(Chain) |-> RunsFor(Chain, top)],
                           runs2 |-> [top \in 1..2 |-> RunsFor(Chain2, top)]]))
